@@ -174,6 +174,30 @@ func TestC06(t *testing.T) {
 		}
 		return c06WL{w}
 	}, c06RunWL)
+	// the entropy of a long recipe claims 2^H equally likely outcomes; every
+	// outcome the claim counts must be reachable (support check, see support_test.go)
+	ev.Check(t, "c06_long_support", ev.N(24, 240), func(t *rapid.T) supWL {
+		w := gen.WLSpec{Words: gen.WordList(t, gen.WordListOpts{Min: 1, Max: 4, AllCapable: true}),
+			Length: rapid.IntRange(20, 100).Draw(t, "long_length"),
+			Scheme: rapid.SampledFrom([]string{"one", "random", "random"}).Draw(t, "scheme"),
+			Sep:    gen.SepSpec{Kind: "preset", Preset: rapid.SampledFrom([]string{"SFNone", "SFDigits1", "SFSymbols"}).Draw(t, "preset")}}
+		return supWL{W: w, Key: rapid.Uint64().Draw(t, "key")}
+	}, func(c supWL) error {
+		r, m, err := buildWL(c.W)
+		if err != nil {
+			return &ev.Skip{Why: "empty"}
+		}
+		kept := oracle.Kept(c.W.Words)
+		if want := oracle.WLEntropy(c.W.Length, kept, c.W.Scheme, m.Entropy); !oracle.Close32(r.Entropy(), want, 4, 0) {
+			return fmt.Errorf("Entropy() = %v, formula gives %.5f", r.Entropy(), want)
+		}
+		ev.NonTrivial(fmt.Sprintf("long|%+v", c.W))
+		ev.Class("long_recipe_support_checked")
+		if err := wlSupport(c); err != nil {
+			return fmt.Errorf("the reported entropy %v counts outcomes that never occur: %w", r.Entropy(), err)
+		}
+		return nil
+	})
 	ev.Check(t, "c06_char", ev.N(160, 1600), func(t *rapid.T) c06Char {
 		c := c02Gen(t)
 		return c06Char{c.Spec, c.Key}
